@@ -23,7 +23,8 @@ def run(tier, seed):
         # math.boltzmann_velocities
         twin = np.random.default_rng(sd)
         sig = np.sqrt(kt * mass); praw = twin.normal(0.0, sig)
-        v = boltzmann_velocities(mass, T, scale=scale, seed=sd)
+        flag = rng.choice([scale, np.bool_(scale), int(scale), np.array(scale)])          # any truthy / falsy value is a legal flag
+        v = boltzmann_velocities(mass, T, scale=flag, seed=sd)
         p_impl = v * mass
         info = dict(kind="boltzmann_velocities", masses=mass.tolist(), T=T, seed=sd, scale=scale)
         bc.append(tup(bl(scale), fl(kt), fls(mass), fls(praw), fls(sig), fls(p_impl), fls(v))); bmeta.append(info)
